@@ -30,6 +30,7 @@ func checkC14(t TB, c C14Case) bool {
 	const P, K = "C14", "checksum"
 	s := string(c.Content)
 	var bc barcode.BarcodeIntCS
+	var plainNC barcode.Barcode
 	var err error
 	cs := barcode.ColorScheme{Model: color.Gray16Model, Background: color.White, Foreground: color.Black}
 	if c.Scheme != nil {
@@ -53,7 +54,8 @@ func checkC14(t TB, c C14Case) bool {
 				plain, err = code128.EncodeWithoutChecksumWithColor(s, cs)
 			}
 			if err == nil && !nilBarcode(plain) {
-				bc, _ = plain.(barcode.BarcodeIntCS) // stays nil when no checksum is exposed: nothing to judge
+				bc, _ = plain.(barcode.BarcodeIntCS) // stays nil when no checksum is exposed
+				plainNC = plain
 			}
 		case c.Kind == "code39" && c.Scheme == nil:
 			bc, err = code39.Encode(s, c.Checksum, c.FullASCII)
@@ -62,6 +64,31 @@ func checkC14(t TB, c C14Case) bool {
 		}
 	}); pv != nil {
 		failf(t, P, K, c, "%v", pv)
+	}
+	if err == nil && nilBarcode(bc) && !nilBarcode(plainNC) {
+		// no checksum exposed by the no-checksum variant itself; its scaled copies must not invent one either: if a
+		// scaled copy exposes CheckSum(), it has to be the modulo-103 value of the symbol
+		pat, perr := pattern(plainNC, cs)
+		if perr != nil || len(pat) != 1 {
+			failf(t, P, K, c, "reading the symbol: %v", perr)
+		}
+		res, derr := ref.DecodeCode128(pat[0], false)
+		if derr != nil {
+			failf(t, P, K, c, "reference decoder: %v", derr)
+		}
+		cur := plainNC
+		for round, extra := range c.Scales {
+			var next barcode.Barcode
+			var serr error
+			if pv := try(func() { next, serr = barcode.Scale(cur, cur.Bounds().Dx()*(1+extra%3)+extra, 1+extra%7) }); pv != nil || serr != nil || nilBarcode(next) {
+				failf(t, P, K, c, "Scale round %d: %v %v", round, pv, serr)
+			}
+			if ics, ok := next.(barcode.BarcodeIntCS); ok && ics.CheckSum() != res.WantSum {
+				failf(t, P, K, c, "after %d scalings the barcode exposes CheckSum()=%d; the modulo-103 check value of its symbols is %d", round+1, ics.CheckSum(), res.WantSum)
+			}
+			cur = next
+		}
+		return false
 	}
 	if err != nil || nilBarcode(bc) {
 		return false
@@ -99,12 +126,18 @@ func checkC14(t TB, c C14Case) bool {
 		if res.Check != want {
 			failf(t, P, K, c, "drawn check character has value %d, modulo-103 sum of the symbol is %d", res.Check, want)
 		}
+		if res.Text != s { // the check value "for the encoded content": the symbols must be those of the content
+			failf(t, P, K, c, "the symbol (and with it the check value %d) is that of %q, not of the content", want, res.Text)
+		}
 	case "code128nc": // exposes a checksum although it draws none: it must still be the modulo-103 value of its symbols
 		res, derr := ref.DecodeCode128(m, false)
 		if derr != nil {
 			failf(t, P, K, c, "reference decoder: %v", derr)
 		}
 		want = res.WantSum
+		if res.Text != s {
+			failf(t, P, K, c, "the symbol is that of %q, not of the content", res.Text)
+		}
 	case "code39":
 		raw, derr := ref.DecodeCode39Raw(m)
 		if derr != nil {
@@ -115,6 +148,13 @@ func checkC14(t TB, c C14Case) bool {
 			data = raw[:len(raw)-1]
 		}
 		want = ref.Code39Check(data)
+		text, terr := data, error(nil)
+		if c.FullASCII {
+			text, terr = ref.FullASCIIDecode([]rune(data), '$', '%', '/', '+')
+		}
+		if terr != nil || text != s {
+			failf(t, P, K, c, "the symbol (and with it the check value %d) is that of %q (%v), not of the content", want, text, terr)
+		}
 		if c.Checksum {
 			if got := ref.Code39Value(raw[len(raw)-1]); got != want {
 				failf(t, P, K, c, "drawn check character %q has value %d, modulo-43 sum of %q is %d", raw[len(raw)-1], got, data, want)
